@@ -61,7 +61,7 @@ MANIFEST = {
             "ground programs without recursion: there it is modelled (ProbLogModel/GroundAcyclic.lean, exact equality of the "
             "ground program with the real engine's) and proved correct against Sem.wfm for all programs, schedules and call "
             "histories (C01Ground.C01_ground_acyclic_correct).",
-    "note": "Trusted: Lean kernel + standard axioms; the harness's first-order instantiation (spine.reference); Sem as the "
+    "note": "Trusted: Lean kernel + standard axioms; the serialiser of first-order programs (spine.fo_sexp; the Herbrand instantiation itself is Lean's SemFO.ground, proved in C01FO, and cross-checked against the former Python instantiation on every program); Sem as the "
             "meaning of 'distribution semantics'. The engine (engine_stack.py/eval_nodes.py) is not modelled: agreement is "
             "established on the generated programs only. Floats vs exact rationals at 1e-9.",
     "design_ref": "DESIGN.md §5, §6 C01",
